@@ -3,6 +3,7 @@ NEXT TNext
 CONSTANTS
   MaxStmts = 1
   MaxDepth = 1
+  Slice = "all"
   UseY = FALSE
   Cats = {}
 CHECK_DEADLOCK FALSE
